@@ -31,6 +31,10 @@ type c08Case struct {
 	Reopen bool        `json:"reopen"` // the session switching to another database and back
 	// Age > 0: the database starts with the row-id and LSN counters of a database long in use (props.Ages)
 	Age int `json:"age,omitempty"`
+	// RefusedCreate: the first statement of every new session is a CREATE TABLE of the existing table with
+	// ANOTHER column list (an edited set-up script run again): it is refused, and the values must still be
+	// read and written with the table's real columns
+	RefusedCreate bool `json:"refused_create,omitempty"`
 }
 
 const c08Table = "vals"
@@ -313,7 +317,7 @@ func c08BulkRow(cols []model.Col, rid int64) model.Stmt {
 }
 
 func c08Gen(rt *rapid.T) c08Case {
-	c := c08Case{Age: DrawAge(rt)}
+	c := c08Case{Age: DrawAge(rt), RefusedCreate: rapid.Bool().Draw(rt, "refusedcreate")}
 	ncols := rapid.IntRange(1, 8).Draw(rt, "ncols")
 	c.Cols = []model.Col{{Name: "rid", Type: model.TBigInt}}
 	for i := 1; i < ncols; i++ {
@@ -336,6 +340,25 @@ func c08Gen(rt *rapid.T) c08Case {
 	c.Phase2 = c08Ops(rt, c.Cols, db, &rid, rapid.IntRange(1, 8).Draw(rt, "n2"))
 	c.Reopen = rapid.IntRange(0, 2).Draw(rt, "reopen") == 0
 	return c
+}
+
+// c08OtherCreate is a CREATE TABLE of the case's table with a different column list: the columns in
+// reverse order, each with another type, plus one more.
+func c08OtherCreate(cols []model.Col) model.Stmt {
+	s := model.Stmt{Kind: "create", Table: c08Table}
+	for i := len(cols) - 1; i >= 0; i-- {
+		c := cols[i]
+		switch c.Type {
+		case model.TVarchar:
+			c.Type, c.Len = model.TInt, 0
+		default:
+			c.Type, c.Len = model.TVarchar, 12
+		}
+		s.Cols = append(s.Cols, c)
+	}
+	s.Cols = append(s.Cols, model.Col{Name: "one_more", Type: model.TBool})
+	s.SQL = gen.RenderStmt(gen.Plain(), s)
+	return s
 }
 
 func c08Run(c c08Case, st *vlib.Stats) string {
@@ -442,6 +465,14 @@ func c08Run(c c08Case, st *vlib.Stats) string {
 	if err := eng.Exec("USE " + DBName); err != nil {
 		return "USE after restart failed: " + err.Error()
 	}
+	if c.RefusedCreate {
+		if err := eng.ExecStmt(c08OtherCreate(c.Cols)); err == nil {
+			st.Label("case-dropped(duplicate CREATE TABLE accepted)", 1)
+			return ""
+		} else if mk.IsPanic(err) {
+			return "CREATE TABLE of the existing table: " + err.Error()
+		}
+	}
 	if msg := CompareAll(eng, m, nil); msg != "" {
 		return "after a clean restart: " + msg
 	}
@@ -483,6 +514,14 @@ func c08Run(c c08Case, st *vlib.Stats) string {
 	}
 	if err := eng.Exec("USE " + DBName); err != nil {
 		return "USE after the second restart failed: " + err.Error()
+	}
+	if c.RefusedCreate {
+		if err := eng.ExecStmt(c08OtherCreate(c.Cols)); err == nil {
+			st.Label("case-dropped(duplicate CREATE TABLE accepted)", 1)
+			return ""
+		} else if mk.IsPanic(err) {
+			return "CREATE TABLE of the existing table: " + err.Error()
+		}
 	}
 	if msg := CompareAll(eng, m, nil); msg != "" {
 		return "after crash, recovery and another clean restart: " + msg
